@@ -159,6 +159,26 @@ def check(run: Run) -> None:
         if not tok_types:
             continue  # loop exhausted
         n_stop += 1
+        # the early stop may depend on nothing but "token is a logical NEWLINE" and the caller's flag
+        from ..model import ancestors as _anc
+
+        gov = None
+        for a in _anc(st):
+            if isinstance(a, ast.If):
+                gov = a
+                break
+            if isinstance(a, (ast.For, ast.While)):
+                break
+        if gov is not None:
+            conj = gov.test.values if isinstance(gov.test, ast.BoolOp) and isinstance(gov.test.op, ast.And) else [gov.test]
+            odd = []
+            for cnd in conj:
+                txt = ast.unparse(cnd)
+                is_nl = isinstance(cnd, ast.Compare) and len(cnd.ops) == 1 and isinstance(cnd.ops[0], ast.Eq) and txt.replace(" ", "") in ("t.type==tokenize.NEWLINE", "tokenize.NEWLINE==t.type") or (isinstance(cnd, ast.Compare) and isinstance(cnd.ops[0], ast.Eq) and "tokenize.NEWLINE" in txt and ".type" in txt)
+                is_flag = "can_encounter_newline" in txt and not isinstance(cnd, ast.BoolOp)
+                if not (is_nl or is_flag):
+                    odd.append(txt)
+            run.check(not odd, "C03.R6", fi_, st, "early stop depends only on 'logical NEWLINE token' and the caller's flag", f"the same-line scan also stops when {' / '.join(odd)[:120]}: e.g. a physical line break (NL token, string '\\n') inside brackets ends candidate collection, so the lambda of a call wrapped onto the next line is never a candidate", "t.type == tokenize.NEWLINE and not can_encounter_newline")
         run.check(set(tok_types) <= {"NEWLINE", "NAME"} and "NEWLINE" in tok_types, "C03.R6", fi_, st, "scan stops early only at a logical NEWLINE", f"the same-line scan stops at token type(s) {sorted(set(tok_types))}: a physical line break (NL) inside brackets ends candidate collection, so lambdas later in the same wrapped expression are never candidates and a neighbour can be recorded silently", "tokenize.NEWLINE")
     run.floor("C03.R6", n_stop, 1, "early stop in find_identifier")
     # every caller hands a list of identifiers (a bare string would make `t.string in identifier` a substring test)
